@@ -200,6 +200,104 @@ def exception_scenarios():
     return out
 
 
+def exit_path_scenarios():
+    """every way of LEAVING a try body / catch block / finally block x what the try statement has x what ran
+    in the body before (nothing, a completed inner try statement, an inner try that caught) x the wrapper the
+    completion travels through; afterwards the handler stack is probed by an uncaught-looking throw that only
+    the probe's own catch may receive."""
+    out = []
+    outers = ["catch", "finally", "catch-finally"]
+    befores = ["none", "inner-catch-noraise", "inner-catch-raise", "inner-finally", "inner-catch-finally-raise", "sequential-before"]
+    exits = ["fall", "return", "throw", "break", "continue", "callee-throw"]
+    places = ["body", "catch", "finally"]
+    for outer, before, exit_, place in itertools.product(outers, befores, exits, places):
+        if place == "catch" and outer == "finally":
+            continue
+        if place == "finally" and outer == "catch":
+            continue
+        if place != "body" and before not in ("none", "inner-catch-raise"):
+            continue
+        b = Builder()
+        b.fn("thrower", [])
+        b.throw(lit("from callee"))
+        b.end()
+        b.fn("main", ["n"])
+        b.var("acc", lit("L0"))
+        b.for_("i", rng(0, 3))
+        b.var("loc", lit("loop local"))
+
+        def inner():
+            if before == "inner-catch-noraise":
+                b.try_(); b.print(lit("inner body")); b.catch("ie"); b.print(lit("inner caught")); b.end()
+            elif before == "inner-catch-raise":
+                b.try_(); b.throw(lit("inner exc")); b.catch("ie"); b.print(b.v("ie")); b.end()
+            elif before == "inner-finally":
+                b.try_(); b.print(lit("inner body")); b.finally_(); b.print(lit("inner fin")); b.end()
+            elif before == "inner-catch-finally-raise":
+                b.try_(); b.throw(lit("inner exc")); b.catch("ie"); b.print(b.v("ie")); b.finally_(); b.print(lit("inner fin")); b.end()
+
+        def leave():
+            if exit_ == "return":
+                b.if_(bin_("==", b.v("i"), lit(1))); b.ret(lit("returned")); b.end()
+            elif exit_ == "throw":
+                b.if_(bin_("==", b.v("i"), lit(1))); b.throw(lit("thrown")); b.end()
+            elif exit_ == "callee-throw":
+                b.if_(bin_("==", b.v("i"), lit(1))); b.expr(call(b.v("thrower"))); b.end()
+            elif exit_ == "break":
+                b.if_(bin_("==", b.v("i"), lit(1))); b.break_(); b.end()
+            elif exit_ == "continue":
+                b.if_(bin_("==", b.v("i"), lit(1))); b.continue_(); b.end()
+            b.print(tup(lit("stayed"), b.v("i")))
+
+        if before == "sequential-before":
+            b.try_(); b.print(lit("earlier body")); b.catch("pe"); b.print(lit("earlier caught")); b.end()
+        b.try_()
+        b.var("inbody", lit("body local"))
+        if place == "body":
+            inner()
+            leave()
+        else:
+            # reach the catch / finally block with an exception (catch) or normally and exceptionally (finally)
+            if place == "catch" or before == "inner-catch-raise":
+                b.if_(bin_("<", b.v("i"), lit(2))); b.throw(lit("to handler")); b.end()
+            b.print(b.v("inbody"))
+        if outer in ("catch", "catch-finally"):
+            b.catch("e")
+            b.print(tup(lit("caught"), b.v("e")))
+            if place == "catch":
+                leave()
+        if outer in ("finally", "catch-finally"):
+            b.finally_()
+            b.print(lit("fin"))
+            if place == "finally":
+                leave()
+        b.end()
+        b.print(tup(b.v("loc"), b.v("acc"), b.v("i")))
+        b.end()        # for
+        b.ret(lit("end of main"))
+        b.end()        # fn
+        # the call is itself protected: what escapes main must arrive here and nowhere else
+        b.try_()
+        b.print(call(b.v("main"), lit(0)))
+        b.catch("oe")
+        b.print(tup(lit("outer caught"), b.v("oe")))
+        b.end()
+        # probe: any handler left behind by main would receive this instead of the probe's catch
+        b.try_()
+        b.throw(lit("probe"))
+        b.catch("pe2")
+        b.print(tup(lit("probe caught"), b.v("pe2")))
+        b.end()
+        b.try_()
+        b.print(lit("probe body"))
+        b.finally_()
+        b.print(lit("probe fin"))
+        b.end()
+        b.print(lit("done"))
+        out.append(("exit:%s:%s:%s:%s" % (outer, before, exit_, place), b.toks))
+    return out
+
+
 # ---------------------------------------------------------------------------------------------------
 # C09: fibers with bodies drawn from a small action set, under a main schedule of calls
 def get(o, m):
